@@ -44,7 +44,7 @@ def shards(tier):
 
 
 PLANS = (('dt_off', False), ('dt_on', False), ('dt_on', True), ('ct_off', False), ('ct_on', False), ('ct_on', True))
-SHAPES = ('plain', 'unused_declared_with_data', 'unused_declared_no_data', 'undeclared_supplied', 'reversed', 'reevaluate_shorter')
+SHAPES = ('plain', 'unused_declared_with_data', 'unused_declared_no_data', 'undeclared_supplied', 'reversed', 'reevaluate_shorter', 'unused_subspec')
 
 
 def supported(f, kind, pastify):
@@ -77,7 +77,11 @@ def run_case(case):
         decl.append('z')
     if shape == 'reversed':
         decl = decl[::-1]
-    k, spec = impl.outcome(impl.build, kind, case['spec'], decl, pastify=False)
+    subs = ()
+    if shape == 'unused_subspec':
+        # a named sub-formula that the final formula never refers to (legal, e.g. kept for get_value)
+        subs = ('q9 = (%s >= 0);' % (vs[0] if vs else 'x'), 'q8 = once[0,1] (%s <= 1);' % (vs[-1] if vs else 'x'))
+    k, spec = impl.outcome(impl.build, kind, case['spec'], decl or ['x'], pastify=False, subspecs=subs)
     if k != 'ok':
         return k, spec, 'parse'
     if pastify:
